@@ -83,6 +83,17 @@ pub fn msd_only_schedule() -> Vec<Ev> {
     ]
 }
 
+/// Default configuration, every signer faster than the aggregator: all signatures of a round arrive
+/// before its open message exists (answered "buffered"), the open message is created by the next
+/// cycle and the buffered signatures are handed over to it.
+pub fn buffered_schedule() -> Vec<Ev> {
+    use Ev::*;
+    vec![
+        Tick, RegisterAll, Epoch(1), Tick, Tick, SigAll(Ty::Msd), Tick, RegisterAll, Tick, Quiesce, Tick,
+        Epoch(1), Tick, Tick, SigAll(Ty::Msd), Tick, RegisterAll, Tick, Quiesce,
+    ]
+}
+
 pub fn run_with_cuts(scratch: &std::path::Path, history: &[Ev], cuts: &[Cut], msd_only: bool, honest_once: bool) -> CrashRun {
     match mc_core::catch(|| run_with_cuts_inner(scratch, history, cuts, msd_only, honest_once)) {
         Ok(r) => r,
@@ -269,7 +280,7 @@ pub fn run(ctx: &Ctx) -> ! {
     // (schedule, msd_only): the second world is the default configuration, in which the Mithril
     // stake distribution is the only signed entity type - there an epoch without its certificate
     // is a gap that blocks the aggregator until manual repair
-    let mut schedules: Vec<(Vec<Ev>, bool)> = vec![(base.clone(), false), (msd_only_schedule(), true)];
+    let mut schedules: Vec<(Vec<Ev>, bool)> = vec![(base.clone(), false), (msd_only_schedule(), true), (buffered_schedule(), true)];
     let dev: Vec<Ev> = {
         use Ev::*;
         vec![Tick, Quiesce, Immutable, Epoch(1), Restart, Expire(Ty::Cdb), Sig { signer: 1, ty: Ty::Cdb, variant: crate::sys::Variant::NextBeacon }]
@@ -290,16 +301,20 @@ pub fn run(ctx: &Ctx) -> ! {
     for (si, r) in recs.iter().enumerate() {
         rep.eval();
         rep.outcome(&format!("baseline:{}", r.outcome));
-        if si <= 1 && !r.violations.is_empty() {
+        if si <= 2 && !r.violations.is_empty() {
             // the tree under test does not satisfy the oracle on the base schedule even without a
             // stop (never so on the unchanged tree). The cuts are still enumerated: what C15
             // promises after a stop and restart is judged on the runs that have one.
             rep.extra(
-                if si == 0 { "base_schedule_without_crash_violates" } else { "default_configuration_schedule_without_crash_violates" },
+                match si {
+                    0 => "base_schedule_without_crash_violates",
+                    1 => "default_configuration_schedule_without_crash_violates",
+                    _ => "buffered_signatures_schedule_without_crash_violates",
+                },
                 json!(r.violations.iter().map(|v| v.key.clone()).collect::<Vec<_>>()),
             );
         }
-        if si > 1 && !r.violations.is_empty() {
+        if si > 2 && !r.violations.is_empty() {
             // a deviated schedule that does not progress even without a crash says nothing about crashes
             rep.add_extra("schedules_skipped_no_baseline_progress", 1);
             continue;
